@@ -128,6 +128,7 @@ type Enc struct {
 	useWriterLog  bool
 	curCon        *FuncContract
 	immRegs       map[string]bool
+	immTop        *ssa.Function
 	entry         *tableEntry
 	freeVarVals   []Val
 	topConPkg     string
@@ -505,7 +506,7 @@ func (e *Enc) unknownRefs(t types.Type, term *Term, mark int, depth int) *Term {
 // isEntryRead: the term is a projection / select chain over an entry-heap register constant or a parameter.
 func isEntryRead(t *Term) bool {
 	for len(t.args) > 0 {
-		if t.op != "select" && !strings.Contains(t.op, ".f") && !strings.HasPrefix(t.op, "s.") {
+		if t.op != "select" && !strings.Contains(t.op, ".f") && !strings.HasPrefix(t.op, "s.") && !strings.HasPrefix(t.op, "unbox_") {
 			return false
 		}
 		t = t.args[0]
@@ -576,8 +577,9 @@ func (e *Enc) regInit(ep *epoch, r *regInfo) *Term {
 	if ep.a != nil {
 		return e.tb.Ite(ep.cond, e.regInit(ep.b, r), e.regInit(ep.a, r))
 	}
-	if ep.cloParent != nil && e.immutableReg(r.name) {
-		return e.regInit(ep.cloParent.ep, r)
+	if e.immutableReg(r.name) {
+		// never written after construction: every epoch starts from the entry contents
+		return e.tb.Const("H0_"+r.name, r.sort)
 	}
 	c := e.tb.Const(fmt.Sprintf("H%d_%s", ep.id, r.name), r.sort)
 	if _, ok := e.freshMark[c.op]; !ok {
@@ -695,6 +697,13 @@ func (e *Enc) store(st *State, a *Addr, v *Term) {
 		if u, ok := a.root.Underlying().(*types.Struct); ok {
 			s := e.structSortOf(a.root, u)
 			r := e.fieldReg(s, u, a.path[0].field)
+			if e.immutableReg(r.name) {
+				// declared `immutable`: only the code that constructs the object may write the field
+				if n, isLit := a.ref.intLit(); !isLit || n.Sign() >= 0 {
+					q := e.oblige("frame", "immutable:"+r.name, st, tb.Lt(a.ref, tb.Int(0)), token.NoPos)
+					q.Text = "a field declared immutable is written in an object this function did not allocate"
+				}
+			}
 			h := e.reg(st, r)
 			old := tb.Select(h, a.ref)
 			e.setReg(st, r, tb.Store(h, a.ref, e.inject(old, a.path[1:], v)))
@@ -1504,6 +1513,12 @@ func (e *Enc) havocAll(st *State, why string) {
 	old := st.clone()
 	st.heap = map[string]*Term{}
 	st.ep = e.newEpoch()
+	// registers declared `immutable` (fields that are not written after construction) keep their contents
+	for n, t := range old.heap {
+		if e.immutableReg(n) {
+			st.heap[n] = t
+		}
+	}
 	// objects allocated by this unit whose reference never left it keep their contents
 	for _, a := range e.allocs {
 		if a.escaped {
@@ -1841,7 +1856,8 @@ func (e *Enc) ghostAssign(fr *Frame, st *State, env *evalEnv, gs ghostStmt) {
 
 // immutableReg: the register is declared `immutable T.f` in a contract file.
 func (e *Enc) immutableReg(name string) bool {
-	if e.immRegs == nil {
+	if e.immRegs == nil || (e.immTop == nil && e.top != nil) {
+		e.immTop = e.top
 		e.immRegs = map[string]bool{}
 		for _, d := range e.L.contracts.immutable {
 			env := &evalEnv{e: e, vars: map[string]SV{}, bound: map[string]SV{}, pkg: e.L.typesPkg(d.pkg)}
